@@ -251,7 +251,7 @@ def snippet(b, kinds=None, in_fn_ret=None):
             b.add("%s = %s[0]" % (v, b.site("list", "g_list", "indexable")))
     elif choice == "oper":
         v = b.name()
-        op = g.choice(["-", "*", "/", "<", ">=", "&&", "||"])
+        op = g.choice(["-", "*", "/", "<", ">=", "&&", "||", "%", "&", "|", "xor", "<<", ">>"])
         if op in ("&&", "||"):
             b.add("%s = %s %s %s" % (v, b.site("bool", "true", "operand", op), op, b.site("bool", "false", "operand", op)))
         else:
@@ -572,6 +572,9 @@ def faults(site):
                 continue          # str * int and list * int are documented (repetition)
             out.append(("wrong-family:" + w, w))
         out.append(("undeclared-name", "undeclared_zz"))
+        if k == "operand" and site.extra in ("&", "|", "xor", "<<", ">>"):
+            # the bitwise and shift operators take whole numbers: a float - a variable, a call result, a literal - is a wrong kind
+            out += [("float-operand-of-bit-operator:g_fl", "g_fl"), ("float-operand-of-bit-operator:1.5", "1.5"), ("float-operand-of-bit-operator:g_fl * 2.0", "(g_fl * 2.0)")]
         if k != "operand" and fam in OPTIONAL_OF:
             out.append(("optional-of-expected:" + OPTIONAL_OF[fam], OPTIONAL_OF[fam]))
         if k in ("return", "return-inner"):
